@@ -148,14 +148,40 @@ func (b *Broker) subscribe(ctx context.Context, topic string) bool {
 }
 
 func (b *Broker) response(ctx context.Context, id string) {
-	if responder, ok := b.responders.Pop(id); ok {
-		responder := responder.(chan map[string][]Message)
-		if !b.send(ctx, id, responder) {
-			if !b.responders.SetIfAbsent(id, responder) {
-				responder <- nil
-			}
+	for {
+		value, ok := b.responders.Pop(id)
+		if !ok {
+			return
+		}
+		responder := value.(chan map[string][]Message)
+		if b.send(ctx, id, responder) {
+			return
+		}
+		if !b.responders.SetIfAbsent(id, responder) {
+			responder <- nil
+			return
+		}
+		// a publish that came while the responder was out of the map has found nobody to
+		// wake: now that the responder is back, what it has cached is handed over.
+		if !b.pending(id) {
+			return
 		}
 	}
+}
+
+// pending reports whether a message is cached for the client.
+func (b *Broker) pending(id string) (found bool) {
+	if topics, ok := b.messages.Load(id); ok {
+		topics.(*sync.Map).Range(func(_, value interface{}) bool {
+			if cache, _ := value.(*MessageCache); cache != nil {
+				cache.l.Lock()
+				found = len(cache.m) > 0
+				cache.l.Unlock()
+			}
+			return !found
+		})
+	}
+	return
 }
 
 func (b *Broker) offline(ctx context.Context, topics *sync.Map, id string, topic string) bool {
@@ -194,6 +220,11 @@ func (b *Broker) message(ctx context.Context) map[string][]Message {
 			}
 			return newValue
 		})
+		// a publish between the look into the caches above and the registration of the
+		// responder has found nobody to wake.
+		if b.pending(id) {
+			b.response(ctx, id)
+		}
 		if b.Timeout > 0 {
 			ctx, cancel := context.WithTimeout(ctx, b.Timeout)
 			defer cancel()
